@@ -312,6 +312,9 @@ func c16Load(t *tape.Tape, a *c16Arr) (r c16Result) {
 			for j, f := range l {
 				per[j*n/len(l)].WriteString(f)
 			}
+			// files of one base name in different directories (a schema kept as
+			// core/types.graphql, shop/types.graphql, ...)
+			dirs := t.Bool(1, 3)
 			for j := 0; j < n; j++ {
 				txt := per[j].String()
 				switch t.Draw(4) {
@@ -321,7 +324,24 @@ func c16Load(t *tape.Tape, a *c16Arr) (r c16Result) {
 				case 1:
 					txt = strings.TrimRight(txt, "\n")
 				}
-				fsys.Files[fmt.Sprintf("part%d.graphql", j)] = []byte(txt)
+				if dirs {
+					fsys.Files[fmt.Sprintf("mod%d/types.graphql", j)] = []byte(txt)
+				} else {
+					fsys.Files[fmt.Sprintf("part%d.graphql", j)] = []byte(txt)
+				}
+			}
+			if dirs {
+				if t.Bool(1, 2) {
+					err = root.ParseFS(fsys, "*/*.graphql")
+				} else {
+					err = root.ParseFS(fsys, "mod*/types.graphql", "*/*.graphql")
+				}
+				if err != nil {
+					r.rejected = true
+					r.err = fmt.Sprintf("load %d of %d: %s", i+1, len(a.loads), oneLine(err.Error()))
+					return
+				}
+				continue
 			}
 			switch t.Draw(4) {
 			case 0:
